@@ -156,6 +156,9 @@ func compare(w *World, qname string, e *Expect, res dnsfix.Result, buf []byte) v
 	}
 	m := res.Msgs[0]
 	lq := strings.ToLower(qname)
+	if e.Skip {
+		return verdict{}
+	}
 	if m.Rcode != e.Rcode() {
 		return verdict{"rcode/want-" + rcodeName(e.Rcode()) + "-got-" + rcodeName(m.Rcode), "response code differs"}
 	}
@@ -211,6 +214,17 @@ func compare(w *World, qname string, e *Expect, res dnsfix.Result, buf []byte) v
 		return verdict{}
 	}
 	// authoritative
+	// A declared text is never empty in the alphabet, so its rdata is a sequence of
+	// non-empty character-strings; how the text is cut into them is not compared.
+	for _, rr := range m.Answer {
+		if t, ok := rr.(*dns.TXT); ok {
+			for _, cs := range t.Txt {
+				if cs == "" {
+					return verdict{"answer/txt-empty-string", fmt.Sprintf("TXT rdata holds an empty character-string that the declared text does not have (%d character-strings, %d bytes of text)", len(t.Txt), len(strings.Join(t.Txt, "")))}
+				}
+			}
+		}
+	}
 	want := make([]obsRR, 0, len(e.Answer))
 	for _, r := range e.Answer {
 		want = append(want, recAs(r, lq))
